@@ -73,8 +73,8 @@ func (eval Evaluator) ExternalProduct(op0 *rlwe.Ciphertext, op1 *Ciphertext, opO
 		}
 	} else {
 		eval.externalProductInPlaceMultipleP(levelQ, levelP, op0, op1, eval.BuffQP[1].Q, eval.BuffQP[1].P, eval.BuffQP[2].Q, eval.BuffQP[2].P)
-		eval.BasisExtender.ModDownQPtoQNTT(levelQ, levelP, c0QP.Q, c0QP.P, opOut.Value[0])
-		eval.BasisExtender.ModDownQPtoQNTT(levelQ, levelP, c1QP.Q, c1QP.P, opOut.Value[1])
+		eval.BasisExtender.ModDownQPtoQNTT(levelQ, levelP, eval.BuffQP[1].Q, eval.BuffQP[1].P, opOut.Value[0])
+		eval.BasisExtender.ModDownQPtoQNTT(levelQ, levelP, eval.BuffQP[2].Q, eval.BuffQP[2].P, opOut.Value[1])
 
 	}
 }
